@@ -9,6 +9,7 @@ import (
 	"os"
 	"path/filepath"
 	"sort"
+	"sync"
 	"sync/atomic"
 	"time"
 
@@ -29,6 +30,18 @@ var (
 type vTable struct {
 	root   string
 	closed atomic.Bool
+	mu     sync.Mutex // the table's own consistency: its snapshot copies under it, swapGeneration writes under it
+}
+
+// swapGeneration replaces the files gen<from>-* of the table directory by gen<to>-* one by one, as one change of
+// the table's state (C19: a snapshot must hold the state before or the state after, nothing in between).
+func (t *vTable) swapGeneration(from, to, n int) {
+	t.mu.Lock()
+	defer t.mu.Unlock()
+	for k := 0; k < n; k++ {
+		os.WriteFile(filepath.Join(t.root, fmt.Sprintf("gen%d-%04d.bin", to, k)), []byte("x"), 0o644)
+		os.Remove(filepath.Join(t.root, fmt.Sprintf("gen%d-%04d.bin", from, k)))
+	}
 }
 
 func (t *vTable) Close() error {
@@ -37,6 +50,7 @@ func (t *vTable) Close() error {
 	return nil
 }
 func (*vTable) Collect(Metrics) {}
+
 // snapshot instrumentation of the fake table (C19): a table must not be closed while its snapshot is running
 var (
 	snapshotDelayNs           atomic.Int64
@@ -55,6 +69,8 @@ func (t *vTable) TakeFileSnapshot(dst string) (bool, error) {
 	if t.closed.Load() {
 		tableClosedDuringSnapshot.Add(1)
 	}
+	t.mu.Lock()
+	defer t.mu.Unlock()
 	ents, _ := os.ReadDir(t.root)
 	for _, e := range ents {
 		if !e.IsDir() {
